@@ -9,6 +9,9 @@ import AptMirror.Model.Vars
   * `C17_vars_direct`         a setting whose references all name settings without `$` gets exactly its one-step
                               substitution against the table as written - whatever the order of the table
   * `C17_vars_direct_order`   ... hence the same value for two tables that define the same settings in different orders
+  * `C17_vars_forward`        a forward-ordered table (every reference names a setting further up or a `$`-free one, as in the
+                              shipped defaults) is evaluated to its top-to-bottom evaluation `fwd` ...
+  * `C17_vars_forward_late_bound`  ... whose values are the late-bound ones: each template substituted against the final table
   * `C17_vars_order_quirk`    (counterexample, replayed on the implementation) for references nested two deep the result CAN
                               depend on the order of the `set` lines: textual re-substitution re-reads `$y` + `foo` as `$yfoo`
 -/
@@ -429,6 +432,189 @@ theorem C17_vars_idempotent (env e : Env) (h : substituteVariables env = .ok e) 
   rw [hunf, hr]
   rfl
 
+/-! ### forward-ordered tables: one pass, late-bound values -/
+
+/-- the entries without `$` -/
+def litOnly (env : Env) : Env := env.filter fun x => !hasDollar x.2
+
+/-- specification for *forward-ordered* tables (every reference names a setting further up, or one without `$` - the shipped
+    default table and the usual overrides are of this kind): evaluate top to bottom; a reference sees the evaluated settings above
+    and the `$`-free settings below; every value must come out `$`-free -/
+def fwd : Env → Env → Option Env
+  | done, [] => some done
+  | done, (k, v) :: rest =>
+    match subst (done ++ litOnly ((k, v) :: rest)) v with
+    | .ok w => if hasDollar w then none else fwd (done ++ [(k, w)]) rest
+    | .error _ => none
+
+theorem lookup_of_mem : ∀ (l : Env), (l.map (·.1)).Nodup → ∀ x ∈ l, lookup l x.1 = .ok x.2
+  | [], _, _, hx => by cases hx
+  | a :: l, hn, x, hx => by
+    simp only [List.map_cons, List.nodup_cons] at hn
+    simp only [lookup, List.find?_cons]
+    rcases List.mem_cons.mp hx with rfl | hx
+    · simp
+    · have hne : ¬ a.1 = x.1 := fun h => hn.1 (by rw [h]; exact List.mem_map.mpr ⟨x, hx, rfl⟩)
+      simp only [hne, decide_false]
+      exact lookup_of_mem l hn.2 x hx
+
+theorem mem_of_lookup : ∀ (l : Env) (n u : S), lookup l n = .ok u → (n, u) ∈ l
+  | [], n, u, h => by simp [lookup] at h
+  | a :: l, n, u, h => by
+    simp only [lookup, List.find?_cons] at h
+    by_cases hk : a.1 = n
+    · simp only [hk, decide_true] at h
+      have : u = a.2 := by cases h; rfl
+      subst this
+      obtain ⟨a1, a2⟩ := a
+      simp only at hk
+      subst hk
+      exact List.mem_cons_self
+    · simp only [hk, decide_false] at h
+      exact List.mem_cons_of_mem _ (mem_of_lookup l n u h)
+
+/-- a table that contains every entry of `small`, with unique keys, agrees with it -/
+theorem agree_of_subset (small big : Env) (hn : (big.map (·.1)).Nodup) (hsub : ∀ x ∈ small, x ∈ big) : Agree small big := by
+  intro name u hl _
+  exact lookup_of_mem big hn (name, u) (hsub _ (mem_of_lookup small name u hl))
+
+theorem litOnly_noDollar (env : Env) : ∀ x ∈ litOnly env, hasDollar x.2 = false := by
+  intro x hx
+  simpa [litOnly] using (List.mem_filter.mp hx).2
+
+theorem litOnly_sub (env : Env) : ∀ x ∈ litOnly env, x ∈ env := fun _ hx => (List.mem_filter.mp hx).1
+
+/-- when the forward evaluation succeeds, one pass of the implementation computes exactly it -/
+theorem pass_fwd : ∀ (todo done : Env) (f : Bool) (e : Env), ((done ++ todo).map (·.1)).Nodup → fwd done todo = some e →
+    ∃ f', pass done todo f = .ok (e, f')
+  | [], done, f, e, _, h => by
+    simp only [fwd] at h
+    cases h
+    exact ⟨f, rfl⟩
+  | (k, v) :: rest, done, f, e, hn, h => by
+    simp only [fwd] at h
+    cases hs : subst (done ++ litOnly ((k, v) :: rest)) v with
+    | error er => rw [hs] at h; cases h
+    | ok w =>
+      rw [hs] at h
+      simp only at h
+      split at h
+      · cases h
+      · rename_i hwd
+        have hwd' : hasDollar w = false := by simpa using hwd
+        have hkeys : ((done ++ [(k, w)] ++ rest).map (·.1)).Nodup := by simpa using hn
+        have hbig : subst (done ++ (k, v) :: rest) v = .ok w := by
+          refine run_agree _ _ (agree_of_subset _ _ hn ?_) v .text w hs hwd'
+          intro x hx
+          rcases List.mem_append.mp hx with hx | hx
+          · exact List.mem_append_left _ hx
+          · exact List.mem_append_right _ (litOnly_sub _ x hx)
+        simp only [pass]
+        by_cases hdv : hasDollar v = true
+        · rw [if_pos hdv, hbig]
+          simp only [Except.bind]
+          exact pass_fwd rest (done ++ [(k, w)]) true e hkeys h
+        · rw [if_neg hdv]
+          have hv : hasDollar v = false := by simpa using hdv
+          have : w = v := by
+            have h1 := run_text_noDollar (done ++ (k, v) :: rest) v hv
+            have h2 : subst (done ++ (k, v) :: rest) v = .ok v := h1
+            rw [hbig] at h2; cases h2; rfl
+          subst this
+          exact pass_fwd rest (done ++ [(k, w)]) f e hkeys h
+
+/-- the forward evaluation only produces `$`-free values -/
+theorem fwd_noDollar : ∀ (todo done e : Env), (∀ x ∈ done, hasDollar x.2 = false) → fwd done todo = some e →
+    ∀ x ∈ e, hasDollar x.2 = false
+  | [], done, e, hd, h => by simp only [fwd] at h; cases h; exact hd
+  | (k, v) :: rest, done, e, hd, h => by
+    simp only [fwd] at h
+    cases hs : subst (done ++ litOnly ((k, v) :: rest)) v with
+    | error er => rw [hs] at h; cases h
+    | ok w =>
+      rw [hs] at h
+      simp only at h
+      split at h
+      · cases h
+      · rename_i hwd
+        refine fwd_noDollar rest (done ++ [(k, w)]) e ?_ h
+        intro x hx
+        rcases List.mem_append.mp hx with hx | hx
+        · exact hd x hx
+        · simp only [List.mem_singleton] at hx
+          subst hx
+          simpa using hwd
+
+/-- **forward-ordered tables are evaluated to their forward evaluation** (in one substituting pass plus the confirming one) -/
+theorem C17_vars_forward (env e : Env) (hn : (env.map (·.1)).Nodup) (h : fwd [] env = some e) :
+    substituteVariables env = .ok e := by
+  obtain ⟨f', hp⟩ := pass_fwd env [] false e (by simpa using hn) h
+  have hlit := fwd_noDollar env [] e (fun _ hx => by cases hx) h
+  have hunf : substituteVariables env = (round env).bind fun (e, found) => if found then loop 14 e else .ok e := rfl
+  have hr : round env = .ok (e, f') := hp
+  rw [hunf, hr]
+  simp only [Except.bind]
+  cases f' with
+  | false => rfl
+  | true =>
+    simp only [if_true]
+    have h2 : round e = .ok (e, false) := by
+      have := pass_noDollar e [] hlit
+      simpa [round] using this
+    have hunf2 : loop 14 e = (round e).bind fun (e, found) => if found then loop 13 e else .ok e := rfl
+    rw [hunf2, h2]
+    rfl
+
+/-- ... and the values are the **late-bound** ones: every setting's template, substituted against the final table -/
+theorem fwd_late_bound : ∀ (todo done e : Env), ((done ++ todo).map (·.1)).Nodup → fwd done todo = some e →
+    (∃ t, e = done ++ t) ∧ ∀ x ∈ todo, ∃ w, (x.1, w) ∈ e ∧ subst e x.2 = .ok w
+  | [], done, e, _, h => by
+    simp only [fwd] at h; cases h
+    exact ⟨⟨[], by simp⟩, fun _ hx => by cases hx⟩
+  | (k, v) :: rest, done, e, hn, h => by
+    have h0 := h
+    simp only [fwd] at h
+    cases hs : subst (done ++ litOnly ((k, v) :: rest)) v with
+    | error er => rw [hs] at h; cases h
+    | ok w =>
+      rw [hs] at h
+      simp only at h
+      split at h
+      · cases h
+      · rename_i hwd
+        have hwd' : hasDollar w = false := by simpa using hwd
+        have hkeys : ((done ++ [(k, w)] ++ rest).map (·.1)).Nodup := by simpa using hn
+        obtain ⟨⟨t, het⟩, hrest⟩ := fwd_late_bound rest (done ++ [(k, w)]) e hkeys h
+        -- the keys of `e` are those of the table, hence unique
+        obtain ⟨f', hp⟩ := pass_fwd ((k, v) :: rest) done false e hn h0
+        obtain ⟨t2, he2, hr2⟩ := pass_shape ((k, v) :: rest) done false e f' hp
+        have hekeys : (e.map (·.1)).Nodup := by
+          have : e.map (·.1) = (done ++ (k, v) :: rest).map (·.1) := by
+            rw [he2]
+            simp only [List.map_append]
+            rw [forall₂_R_keys hr2]
+          rw [this]; exact hn
+        refine ⟨⟨(k, w) :: t, by simp [het]⟩, ?_⟩
+        intro x hx
+        rcases List.mem_cons.mp hx with rfl | hx
+        · refine ⟨w, by rw [het]; simp, ?_⟩
+          refine run_agree _ _ (agree_of_subset _ _ hekeys ?_) v .text w hs hwd'
+          intro y hy
+          rcases List.mem_append.mp hy with hy | hy
+          · rw [het]; simp [hy]
+          · -- a `$`-free entry of the table is kept by the pass
+            have hy1 : y ∈ (k, v) :: rest := litOnly_sub _ y hy
+            have hy2 : hasDollar y.2 = false := litOnly_noDollar _ y hy
+            rw [he2]
+            exact List.mem_append_right _ (forall₂_R_mem hr2 y hy1 hy2)
+        · exact hrest x hx
+
+/-- **late binding for forward-ordered tables**: the final value of every setting is its template as written, substituted
+    against the final table ("every reference resolved against the final settings") -/
+theorem C17_vars_forward_late_bound (env e : Env) (hn : (env.map (·.1)).Nodup) (h : fwd [] env = some e) :
+    substituteVariables env = .ok e ∧ ∀ x ∈ env, ∃ w, (x.1, w) ∈ e ∧ subst e x.2 = .ok w :=
+  ⟨C17_vars_forward env e hn h, (fwd_late_bound env [] e (by simpa using hn) h).2⟩
+
 /-! ### non-vacuity and the order quirk (concrete tables, evaluated by the kernel) -/
 
 instance instDecEqExcept {ε α : Type} [DecidableEq ε] [DecidableEq α] : DecidableEq (Except ε α)
@@ -449,6 +635,16 @@ example : substituteVariables (tbl [("base_path", "/var/spool/apt-mirror"), ("va
 /-- the hypotheses of `C17_vars_direct` are met by `var_path` in that table -/
 example : subst (tbl [("base_path", "/b"), ("var_path", "${base_path}/var")]) (s "${base_path}/var") = .ok (s "/b/var")
     ∧ hasDollar (s "/b/var") = false := by decide +kernel
+
+/-- the shipped default chain is forward-ordered: `fwd` succeeds on it (so `C17_vars_forward_late_bound` applies) -/
+example : fwd [] (tbl [("base_path", "/var/spool/apt-mirror"), ("mirror_path", "$base_path/mirror"), ("var_path", "$base_path/var"),
+      ("cleanscript", "$var_path/clean.sh"), ("postmirror_script", "${var_path}/postmirror.sh"), ("nthreads", "20")]) =
+    some (tbl [("base_path", "/var/spool/apt-mirror"), ("mirror_path", "/var/spool/apt-mirror/mirror"), ("var_path", "/var/spool/apt-mirror/var"),
+      ("cleanscript", "/var/spool/apt-mirror/var/clean.sh"), ("postmirror_script", "/var/spool/apt-mirror/var/postmirror.sh"),
+      ("nthreads", "20")]) := by decide +kernel
+
+/-- ... and it is not forward-ordered when a setting refers to one further down that itself needs evaluation -/
+example : fwd [] (tbl [("cleanscript", "$var_path/clean.sh"), ("var_path", "$base_path/var"), ("base_path", "/b")]) = none := by decide +kernel
 
 /-- errors: an unset name, a lone `$`, a reference cycle -/
 example : substituteVariables (tbl [("a", "$nope")]) = .error .key ∧ substituteVariables (tbl [("a", "100$")]) = .error .value
